@@ -1108,7 +1108,9 @@ pub fn classify_server(frame: &[u8], rx_cap: usize) -> Class {
                 return Class::MustReject("trailing bytes");
             }
             if f > 1 {
-                return Class::DontCare("CONNACK acknowledge flags reserved bits");
+                // bits 7-1 of the acknowledge flags are reserved and must be 0 [MQTT-3.2.2-1]:
+                // illegal flags, like a non-zero reserved nibble in a fixed header
+                return Class::MustReject("reserved bits set in the CONNACK acknowledge flags");
             }
             if !R_CONNACK.contains(&reason) {
                 return Class::DontCare("CONNACK reason code not defined");
